@@ -44,6 +44,7 @@ def verify_one(arg):
         d["unconfirmed_undecided"] = c.options.get("unconfirmed") == "undecided"
         d["samples"] = [o.sample_smt for o in fr.obs.values() if o.sample_smt][:2]
         d["escaped"] = fr.escaped
+        d["n_ensures"] = len([l for l, x in c.ensures.items() if l not in c.aux and x.strip() != "False"])
         return d
     except Exception:
         return {"target": key, "key": key, "contract_file": path, "error": "checker crash: " + traceback.format_exc()[-1500:],
@@ -147,6 +148,13 @@ def cross_check(results):
     return out
 
 
+def raised_in_code_under_test(detail):
+    """a harness traceback whose innermost frame is a repository file (not /verif, not the standard library)"""
+    import re as _re
+    files = _re.findall(r'File "([^"]+)", line', detail or "")
+    return bool(files) and not files[-1].startswith(ROOT) and "/operon_ai/" in files[-1]
+
+
 def run_extra(pid, tier, seed):
     """bounded stand-ins and structural scans registered for the property (native or prover side)"""
     out = []
@@ -231,7 +239,11 @@ def main(argv=None):
         any_failed = any(o["status"] == "failed" for o in fr["obligations"])
         for cov, ok in (fr.get("covers") or {}).items():
             if not ok and not any_failed:
-                errors.append(f"{fr['target']}: vacuity guard: antecedent of {cov} is never satisfiable")
+                # on the unchanged tree this is a contract error and equally breaks the check (non-zero exit); after a code change it means
+                # the contract no longer says anything about the function: undecided, not a crash of the checker
+                undecided.append(f"{fr['target']}: vacuity guard: antecedent of {cov} is never satisfiable")
+        if fr.get("n_ensures") and fr.get("paths", 0) and not (fr.get("exits") or {}).get("return") and not any_failed and not fr.get("unsupported"):
+            undecided.append(f"{fr['target']}: vacuity guard: the contract has postconditions for the normal exit, and no path returns normally")
         samples.extend(fr.get("samples", []))
         for ob in fr["obligations"]:
             n_ob += 1
@@ -312,6 +324,8 @@ def main(argv=None):
                     pass
             violations.append({"obligation": ex["name"], "replay": ex.get("replay", ""), "confirmed": confirmed,
                                "observed": ex.get("detail", ""), "path": ""})
+        elif ex.get("status") == "error" and raised_in_code_under_test(ex.get("detail", "")):
+            undecided.append(f"{ex['name']}: the code under test raised an exception the harness does not expect: {ex.get('detail', '')[-200:]}")
         elif ex.get("status") in ("error", "timeout"):
             errors.append(f"{ex['name']}: {ex.get('status')}: {ex.get('detail', '')[:300]}")
         for kf in ex.get("known_findings", []):
